@@ -116,6 +116,27 @@ impl<E: Pairing> Commitment<E> {
     }
 }
 
+#[cfg(feature = "verif-hooks")]
+impl<E: Pairing> Commitment<E> {
+    /// Verification hook: the group element of this commitment.
+    pub fn verif_point(&self) -> E::G1Affine {
+        self.0
+    }
+
+    /// Verification hook: wrap a group element as a commitment.
+    pub fn verif_from_point(p: E::G1Affine) -> Self {
+        Commitment(p)
+    }
+}
+
+#[cfg(feature = "verif-hooks")]
+impl<E: Pairing> VerifierKey<E> {
+    /// Verification hook: the G1 and G2 powers held by this key.
+    pub fn verif_parts(&self) -> (&[E::G1Affine], &[E::G2Affine]) {
+        (&self.powers_of_g, &self.powers_of_g2)
+    }
+}
+
 #[inline]
 fn msm<E: Pairing>(bases: &[E::G1Affine], scalars: &[E::ScalarField]) -> E::G1Affine {
     let scalars = scalars.iter().map(|x| x.into_bigint()).collect::<Vec<_>>();
